@@ -25,9 +25,11 @@ Model/Join.lean with a pull counter per input and the inputs' state kept when th
   input j, plus those of its elements that j's keys can overtake, plus the first pull.  In the seeded scenario (i = 0, j = 1,
   B = 0) the bound is 1 + 1 + 0 = 2 = what the code does (`outs = [2,1,1]`); the variant's 21 violates it
   (`seeded_variant_violates`).  For the case that k rows exist the key statement is kept as
-  `C05_join_demand_rows_key_statement` (not proved here: the rows are pinned by (a), the bound (b) holds in that case too).
+  `C05_join_demand_rows_key_statement`, proved as `C05_join_demand_rows_key` (every input has handed out exactly its
+  elements with key ≤ the key of the k-th row; the bound (b) holds in that case too).
 -/
 import ShpanVerif.Proofs.JoinDemandLemmas
+import ShpanVerif.Proofs.JoinDemandKey
 import ShpanVerif.Props.C09
 
 namespace ShpanVerif.Props.C05JoinDemand
@@ -298,12 +300,62 @@ theorem C05_join_demand_limit0 (ins : List (List α)) :
     demandInnerN key 0 ins = (0, ins.map (fun _ => 0)) := by
   simp [demandInnerN, demandN, PS.init]
 
-/-- The key-shaped statement for the case that the k-th row exists (kept visible, NOT proved here): every input has
-    handed out exactly its elements with key ≤ the key `K` of the k-th row, in particular at most that many + 1. -/
+/-- The key-shaped statement for the case that the k-th row exists (proved below, `C05_join_demand_rows_key`): every input
+    has handed out exactly its elements with key ≤ the key `K` of the k-th row, in particular at most that many + 1. -/
 def C05_join_demand_rows_key_statement : Prop :=
   ∀ (k : Nat) (ins : List (List α)) (row : List α) (K : Int),
     (∀ l ∈ ins, StrictInc key l) → 1 ≤ k → (innerJoinN key ins)[k - 1]? = some row → (∀ x ∈ row, key x = K) →
     ∀ s ∈ (demandN key k ins).2, s.out = (s.orig.filter (fun x => decide (key x ≤ K))).length
+
+/-- in a strictly increasing list the elements with key ≤ the key of an element are the prefix that ends with it -/
+theorem filter_le_prefix (h : List α) (b : α) (rest : List α) (K : Int) (hs : StrictInc key (h ++ b :: rest))
+    (hb : key b = K) : ((h ++ b :: rest).filter (fun x => decide (key x ≤ K))).length = h.length + 1 := by
+  have hp := pairwise_append.mp hs
+  have h1 : h.filter (fun x => decide (key x ≤ K)) = h := by
+    apply filter_eq_self.mpr
+    intro a ha
+    have := hp.2.2 a ha b (by simp)
+    simp only [decide_eq_true_eq]; omega
+  have h2 : rest.filter (fun x => decide (key x ≤ K)) = [] := by
+    apply filter_eq_nil_iff.mpr
+    intro c hc
+    have := (pairwise_cons.mp hp.2.1).1 c hc
+    simp only [decide_eq_true_eq]; omega
+  simp [filter_append, h1, h2, hb]
+
+/-- **C05 (join demand, key shape)**: strictly increasing inputs, `Limit(k)` with k ≥ 1, and the k-th row of the relational
+    join exists and has key `K`: in the final state EVERY input has handed out exactly its elements with key ≤ `K` - the run
+    stops on the k-th row (`pcollect_done`: the final state is `map ptake` of the state that produced it), each input's
+    slot held its element of that row, and what an input has handed out is always a prefix of its list that ends with the
+    buffered element (`Wf`, threaded through `pfill` / `prefill` / `padv` / `pinner` / `pcollect`). -/
+theorem C05_join_demand_rows_key : C05_join_demand_rows_key_statement key := by
+  intro k ins row K hs hk hrow hK s hsmem
+  obtain ⟨k', rfl⟩ : ∃ k', k = k' + 1 := ⟨k - 1, by omega⟩
+  simp only [Nat.add_sub_cancel] at hrow
+  have hrows := C05_join_demand_rows key (k' + 1) ins hs
+  have horig := demandN_orig key (k' + 1) ins
+  have hlt : k' < (innerJoinN key ins).length := by
+    rcases Nat.lt_or_ge k' (innerJoinN key ins).length with h | h
+    · exact h
+    · rw [getElem?_eq_none h] at hrow; cases hrow
+  have hl : (demandN key (k' + 1) ins).1.length = k' + 1 := by rw [hrows, length_take]; omega
+  have hlast : (demandN key (k' + 1) ins).1.getLast? = some row := by
+    rw [getLast?_eq_getElem?, hl, hrows, Nat.add_sub_cancel, getElem?_take]
+    simp [hrow]
+  have hwf : ∀ s ∈ ins.map (fun l => pfill (PS.init l)), Wf s := by
+    intro s hs
+    obtain ⟨l, _, rfl⟩ := mem_map.mp hs
+    exact wf_pfill (wf_init l)
+  have hso : s.orig ∈ ins := by
+    rw [← horig]; exact mem_map_of_mem hsmem
+  simp only [demandN, Nat.succ_ne_zero, if_false] at hl hlast hsmem
+  obtain ⟨row', hr', hdone⟩ := pcollect_done key _ k' _ hwf hl
+  rw [hlast] at hr'
+  cases hr'
+  obtain ⟨_, h, b, ho, hout, hb⟩ := hdone s hsmem
+  have hst := hs _ hso
+  rw [ho] at hst ⊢
+  rw [hout, filter_le_prefix key h b s.rest K hst (hK b hb)]
 
 /-! ## (c) non-vacuity -/
 
@@ -341,5 +393,17 @@ example : (joinMultiple id three).1 = [[2, 2, 2], [5, 5, 5]] := by decide +kerne
 example : demandInnerN id 0 three = (0, [0, 0, 0]) := by decide +kernel
 /-- a lagging long input next to inputs that go on: one element per round for BOTH lagging inputs (lockstep) -/
 example : demandInnerN id 1 [long, [0, 1, 2, 3], [1000]] = (0, [5, 4, 1]) := by decide +kernel
+
+/-- the key-shaped theorem on `three`: its hypotheses hold for k = 1 (row `[2,2,2]`, K = 2) and k = 2 (row `[5,5,5]`, K = 5),
+    and what it says is what is observed: outs `[2,2,1]` and `[4,3,3]` = elements with key ≤ 2 / ≤ 5 per input -/
+theorem three_strict : ∀ l ∈ three, StrictInc id l := by
+  intro l hl
+  simp only [three, mem_cons, not_mem_nil, or_false] at hl
+  rcases hl with rfl | rfl | rfl <;> simp [StrictInc]
+example : (innerJoinN id three)[2 - 1]? = some [5, 5, 5] ∧ ∀ x ∈ [(5 : Int), 5, 5], id x = 5 := by decide +kernel
+example : ∀ s ∈ (demandN id 2 three).2, s.out = (s.orig.filter (fun x => decide (id x ≤ 5))).length :=
+  C05_join_demand_rows_key id 2 three [5, 5, 5] 5 three_strict (by omega) (by decide +kernel) (by decide)
+example : three.map (fun l => (l.filter (fun x => decide (id x ≤ 5))).length) = [4, 3, 3] ∧
+    three.map (fun l => (l.filter (fun x => decide (id x ≤ 2))).length) = [2, 2, 1] := by decide +kernel
 
 end ShpanVerif.Props.C05JoinDemand
